@@ -100,6 +100,16 @@ func Load(repo string, opt LoadOptions) (*Program, error) {
 		p = q
 	}
 	sort.Strings(renamed)
+	// methods of the inventory that were turned into functions of their receiver become methods again
+	if overlay, notes := p.remethod(opt.Baseline); overlay != nil {
+		q, err := load(repo, opt, token.NewFileSet(), overlay)
+		if err != nil {
+			p.Notes = append(p.Notes, fmt.Sprintf("function->method normalisation skipped (%v)", err))
+		} else {
+			q.Notes = append(p.Notes, "methods again: "+strings.Join(notes, "; "))
+			p = q
+		}
+	}
 	// expression helpers of the inventory that are gone: their inlined copies become calls again
 	if overlay, notes := p.reoutline(opt.Baseline); overlay != nil {
 		q, err := load(repo, opt, token.NewFileSet(), overlay)
